@@ -579,3 +579,35 @@ def check_C11(ctx):
                 if crc_ok and not e["accepted"]:
                     ctx.verdict.add_fail("Strict/byron-rejected-valid-address", e["sc"], {"addr": e["addr"]}, ctx._replay_of(e["sc"]))
         ctx.extra["byron_checksums_evaluated_with_zlib"] = n
+
+
+# ------------------------------------------------------------------------------- C13
+
+@prop("C13", "scenario = a UTxO set (1-60 entries; pure ADA, up to 4 policies, up to 30 assets per entry, 32-byte names, shared asset ids whose "
+             "summed quantities cross CBOR width boundaries, dust, Byron / pointer / base / enterprise owners with shared keys, empty-but-present "
+             "asset bundles) + target address + parameters (cpb 1..34482, max value 150..5000, max tx 1000..16384); every transaction of the "
+             "returned batch is really signed; non-trivial = a successful batch judged on all obligations; distinct = (#utxos, #transactions, "
+             "inputs/outputs per transaction)")
+def check_C13(ctx):
+    ctx.assumptions += ["mock witnesses of the returned transactions are replaced by real signatures over the returned body (FixedTransaction::new_from_body_bytes)",
+                        "the required signer set (payment keys / Byron addresses of the spent outputs) is recomputed by the validator; a harness that signs otherwise is a tool error",
+                        "no TLA+ model of the greedy categorizer (DESIGN section 6 growth work): the partition / ledger obligations are decided on traces only"]
+    if ctx.replay:
+        ctx.run_replay()
+        return
+    ctx.exhaustive = False
+    run = ctx.drive("sendall", n=12000 if ctx.thorough else 1200)
+    _check_tables(run["trace"])
+
+    def corrupt(recs, rnd):
+        n = 0
+        for r in recs:
+            if r.get("ev") == "Reset" and r["utxo"]:
+                r["utxo"].append({"txid": [250] * 32, "ix": 9, "addr": r["utxo"][0]["addr"], "value": {"coin_n": [1], "assets": [], "ma": False}})
+                n += 1
+        return n > 0
+    em = ctx.validate("Trace_SendAll", run, shards=16, corrupt=corrupt)
+    if em is not None and not ctx.selftest:
+        tf = [e for e in em if e.get("t") == "TOOLFAIL"]
+        if tf:
+            raise ToolError("harness/spec disagreement (not a verdict): %s" % json.dumps(tf[0])[:400])
